@@ -3,7 +3,7 @@ EXTENDS Integers
 \* Gas cost of the harness' snippets (props/c20/asm.go).  This file holds the values
 \* measured on the reference tree; the harness regenerates it from a traced calibration
 \* run of the code under test before every TLC run (props/c20/calib.go).
-CFrame == 157
+CFrame == 162
 CWork == 11
 CSStore == 20006
 CLog == 759
